@@ -28,7 +28,8 @@ typedef __complex128 qc_t;
 #define W_HI (3.3e38)
 #define EXP_HI (89.6)
 #define TINY_LO (-6.0)
-#define INV_DEC (getenv("VF_INVDEC") ? atof(getenv("VF_INVDEC")) * 34 / 280 : 34.0) /* inverse families: the whole range (was 1e-3..1e3 before the extreme-magnitude repair) */
+#define INV_DEC (getenv("VF_INVDEC") ? atof(getenv("VF_INVDEC")) * 37 / 307 : 37.0) /* inverse families: the whole range (was 1e-3..1e3 before the extreme-magnitude repair) */
+#define INV_HI (getenv("VF_INVHI32") ? atof(getenv("VF_INVHI32")) : 38.53) /* ... up to the largest finite modulus (was 1e34 before the large-argument repair of the fallbacks) */
 #else
 #define EPSQ ((q_t)DBL_EPSILON)
 #define MAG_LO (-307.0)
@@ -37,7 +38,8 @@ typedef __complex128 qc_t;
 #define W_HI (1.7e308)
 #define EXP_HI (711.0)
 #define TINY_LO (-12.0)
-#define INV_DEC (getenv("VF_INVDEC") ? atof(getenv("VF_INVDEC")) : 280.0)
+#define INV_DEC (getenv("VF_INVDEC") ? atof(getenv("VF_INVDEC")) : 307.0)
+#define INV_HI (getenv("VF_INVHI") ? atof(getenv("VF_INVHI")) : 308.25)
 #endif
 
 static int all_on; /* configuration has every A_HAVE_* switch on */
@@ -227,7 +229,7 @@ static void sample(vf_rng *r, int range, a_real *re, a_real *im, int *region)
     {
     case RG_WIDE: lo = MAG_LO; hi = MAG_HI; break;
     case RG_EXP: lo = TINY_LO; hi = log10(EXP_HI); break;
-    default: lo = -INV_DEC; hi = INV_DEC; break;
+    default: lo = -INV_DEC; hi = INV_HI; break;
     }
     if (vf_chance(r, 1, 2)) { lo = lo < -3 ? -3 : lo; hi = hi > 3 ? 3 : hi; if (range == RG_EXP && hi > 1.5) { hi = 1.5; } }
     mag = pow(10.0, vf_uniform(r, lo, hi));
@@ -252,7 +254,7 @@ static void sample(vf_rng *r, int range, a_real *re, a_real *im, int *region)
     case 5: x = cos(ph); y = sin(ph); break;                    /* unit circle */
     default: x = mag * cos(ph); y = mag * sin(ph); break;
     }
-    if (range == RG_WIDE && vf_chance(r, 1, 16))
+    if ((range == RG_WIDE && vf_chance(r, 1, 16)) || (range == RG_INV && vf_chance(r, 1, 24)))
     {
         /* both components within a factor two of the largest finite value: z is finite although |z| is not representable
            (seeded change C10-H: pow(|z|, a) in place of exp(a log|z|) overflows there) */
@@ -717,13 +719,23 @@ static void inverse_case(vf_rng *r)
         zq = mk(re, im);
         snprintf(d, sizeof(d), "z=(%a, %a) s=%a", (double)re, (double)im, (double)s);
         if (i < 2) { vf_log("inverse pairs %s", d); }
-        /* each composition costs a handful of roundings: identity within (Kbound) * eps * |z| */
-        a_complex_mul_real(&t, z, s); a_complex_div_real(&y, t, s);
-        if (judge("mul_real-div_real", "identity", SW_NONE, zq, 1, y, d)) { VF_COUNT("judged/mul_real-div_real"); }
-        a_complex_mul_imag(&t, z, s); a_complex_div_imag(&y, t, s);
-        if (judge("mul_imag-div_imag", "identity", SW_NONE, zq, 1, y, d)) { VF_COUNT("judged/mul_imag-div_imag"); }
-        a_complex_div_imag(&t, z, s); a_complex_mul_imag(&y, t, s);
-        judge("div_imag-mul_imag", "identity", SW_NONE, zq, 1, y, d);
+        /* each composition costs a handful of roundings: identity within (Kbound) * eps * |z|; the intermediate z*s or z/s must be
+           representable with full precision, otherwise the composition is not defined in this arithmetic */
+        {
+            q_t const up = cabsq(zq) * fabsq((q_t)s), dn = cabsq(zq) / fabsq((q_t)s);
+            if (up > W_LO * 1e4 && up < W_HI / 1e4)
+            {
+                a_complex_mul_real(&t, z, s); a_complex_div_real(&y, t, s);
+                if (judge("mul_real-div_real", "identity", SW_NONE, zq, 1, y, d)) { VF_COUNT("judged/mul_real-div_real"); }
+                a_complex_mul_imag(&t, z, s); a_complex_div_imag(&y, t, s);
+                if (judge("mul_imag-div_imag", "identity", SW_NONE, zq, 1, y, d)) { VF_COUNT("judged/mul_imag-div_imag"); }
+            }
+            if (dn > W_LO * 1e4 && dn < W_HI / 1e4)
+            {
+                a_complex_div_imag(&t, z, s); a_complex_mul_imag(&y, t, s);
+                judge("div_imag-mul_imag", "identity", SW_NONE, zq, 1, y, d);
+            }
+        }
         {
             a_complex c;
             a_real cr, ci;
@@ -743,8 +755,11 @@ static void inverse_case(vf_rng *r)
                 if (judge("add-sub", "identity", SW_NONE, zq, (cabsq(zq) + 2 * cabsq(mk(cr, ci))) / cabsq(zq), y, d)) { VF_COUNT("judged/add-sub"); }
             }
         }
-        a_complex_inv(&t, z); a_complex_inv(&y, t);
-        if (judge("inv-inv", "identity", SW_NONE, zq, 1, y, d)) { VF_COUNT("judged/inv-inv"); }
+        if (1 / cabsq(zq) > W_LO * 1e4 && 1 / cabsq(zq) < W_HI / 1e4)
+        {
+            a_complex_inv(&t, z); a_complex_inv(&y, t);
+            if (judge("inv-inv", "identity", SW_NONE, zq, 1, y, d)) { VF_COUNT("judged/inv-inv"); }
+        }
         /* exp(log z) = z, conditioning of exp at log z is |log z| */
         if (!near_cut(CUT_NEG_REAL, re, im))
         {
